@@ -77,7 +77,7 @@ case(C + "rekey", params={"d": Dict(INT, INT)}, returns=Dict(INT, INT),
      ensures={"only": "all(k - 1 in d for k in result)"},
      canaries={"same-keys": "all(k in result for k in d)", "empty": "len(result) == 0", "zero": "all(result[k] == 0 for k in result)"},
      gen=lambda rng: {"d": idict(rng)})
-case(C + "rekey_collide", params={"d": Dict(INT, INT)}, returns=Dict(INT, INT), requires=["all(k >= 0 for k in d)"],
+case(C + "rekey_collide", params={"d": Dict(INT, INT)}, returns=Dict(INT, INT), requires=["all(k >= 0 for k in d)"], comp_lastpos_free=True,
      ensures={"dom": "all(k // 2 in result for k in d)"},
      # FALSE: when both 2j and 2j+1 are keys the LATER one (in insertion order) wins, not always the even one
      canaries={"even-wins": "all(implies(2 * j in d, result[j] == d[2 * j]) for j in result)", "empty": "len(result) == 0"},
